@@ -55,9 +55,61 @@ def volume_case(rng, alg, bs, ks, mod, blocks_total):
     return c
 
 
+def gigabyte_case(rng, alg, bs, ks, mod, ops):
+    """thorough tier only: one call on 2^30 + 2 blocks of data (an implementation that slices inputs above some large threshold
+    changes path there), compared piecewise with the `cryptography` package; decryption must also invert encryption"""
+    from cryptography.hazmat.primitives.ciphers import Cipher, algorithms, modes
+    c = Case(f"{alg}:gigabyte", {"key": ks, "ops": ops})
+    c.key = f"gigabyte-{alg}"
+    key, iv = rb(rng, ks), rb(rng, bs)
+    ref_alg = algorithms.AES(key) if alg == "aes" else algorithms.TripleDES(key if ks == 24 else (key + key[:8] if ks == 16 else key * 3))
+    chunk = rb(rng, 1 << 20)
+    n = (1 << 30) + 2 * bs
+    data = chunk * (n // len(chunk)) + chunk[: n % len(chunk)]
+
+    def ref(mode, enc, inp):
+        ctx = Cipher(ref_alg, mode)
+        op = ctx.encryptor() if enc else ctx.decryptor()
+        for off in range(0, len(inp), 1 << 24):
+            yield op.update(inp[off:off + (1 << 24)])
+        yield op.finalize()
+
+    for which in ops:
+        cbc = which.endswith("cbc")
+        enc = which.startswith("encrypt")
+        fn = f"{mod}.{which.split('_')[0]}_{alg}_{'cbc' if cbc else 'ecb'}"
+        r = core.call_impl(fn, (key, iv, data) if cbc else (key, data))
+        if not r.ok:
+            c.fail(f"{fn} raised {r.err} on {n} bytes")
+            continue
+        if len(r.value) != n:
+            c.fail(f"{fn} returned {len(r.value)} bytes for {n}")
+            continue
+        off = 0
+        for piece in ref(modes.CBC(iv) if cbc else modes.ECB(), enc, data):
+            if r.value[off:off + len(piece)] != piece:
+                blk = next(i for i in range(0, len(piece), bs) if r.value[off + i:off + i + bs] != piece[i:i + bs])
+                c.fail(f"{fn} on {n} bytes differs from the reference in the block at offset {off + blk}")
+                break
+            off += len(piece)
+        del r
+    return c
+
+
 def generate(rng, tier, seed):
     import warnings
     warnings.simplefilter("ignore")
+    def _mem_gb():
+        try:
+            for line in open("/proc/meminfo"):
+                if line.startswith("MemAvailable:"):
+                    return int(line.split()[1]) / (1 << 20)
+        except OSError:
+            pass
+        return 0
+    if tier == "thorough" and _mem_gb() >= 24:      # the case holds about 10 GiB at its peak; skipped on smaller machines
+        yield gigabyte_case(rng, "aes", 16, rng.choice((16, 24, 32)), "aes", ("encrypt_cbc", "decrypt_cbc", "encrypt_ecb", "decrypt_ecb"))
+        yield gigabyte_case(rng, "tdes", 8, 16, "des", ("decrypt_cbc",))
     yield volume_case(rng, "tdes", 8, rng.choice((8, 16, 24)), "des", (1 << 20) + (1 << 17))
     yield volume_case(rng, "aes", 16, rng.choice((16, 24, 32)), "aes", (1 << 20) + (1 << 17))
     reps = 6 if tier == "quick" else 40
